@@ -221,6 +221,11 @@ def mon_c11(c):
     if c.obs.get('B') != 'ok':
         return 'build() panicked'
     n = len(rb.nodes)
+    ids = [t for t in c.obs.get('R', '').split() if t.startswith('f')]
+    if ids != ['f%d' % i for i in range(n)]:
+        return 'add_fn / add_fns returned ids %s for the %d functions added in this order' % (ids, n)
+    if 'TN' in c.obs and parse_list(c.obs['TN'], ' ') != list(range(n)):
+        return 'the function stored under FnId k is not the k-th function added: %s' % c.obs['TN']
     e = parse_edges(c.obs['E'])
     user = [tuple(x) for x in rb.edges]
     kept = [x for x in e if x[2] != 'D']
